@@ -717,6 +717,8 @@ pub fn predict(root: &MNode, st: &ModelState, step: &SendStep, reading: Reading)
             resolved_units += 1;
             level = new_level;
             let len_before = it.out.len();
+            let st_before_unit = it.st.clone();
+            let executed_before = it.executed.len();
             let end = match h {
                 H::Sim(id) => it.sim_unit(i, u, id),
                 H::Contrib(c) => it.contrib_unit(i, u, c),
@@ -727,17 +729,16 @@ pub fn predict(root: &MNode, st: &ModelState, step: &SendStep, reading: Reading)
                     // the unit separator is pushed before the handler is entered
                     let sep_fits = !(u.query && len_before > 0 && len_before + 1 > cap);
                     if !sep_fits {
-                        // handler of this unit never ran: undo its call/effects is not possible
-                        // in general; only Sim units are used in capacity sweeps with state
-                        // comparison disabled, so just drop the expected call.
+                        // response_unit() fails before the handler is entered: the unit has no
+                        // effect and its handler is not invoked
                         if let Some(last) = it.calls.last() {
                             if last.unit == i {
                                 it.calls.pop();
                             }
                         }
-                    }
-                    it.state_known = false;
-                    if !sep_fits {
+                        it.st = st_before_unit;
+                        it.executed.truncate(executed_before);
+                        it.unit_text[i] = None;
                         result = Err(ExpErr::Code(-225));
                         fail_unit = Some(i);
                         break;
